@@ -57,3 +57,32 @@ pub fn enter() -> Result<DepthGuard, ()> {
     DEPTH.with(|d| d.set(depth + 1));
     Ok(DepthGuard(()))
 }
+
+thread_local! {
+    static LOADER_DEPTH: Cell<u32> = const { Cell::new(0) };
+    static MAX_LOADER_DEPTH: Cell<u32> = const { Cell::new(u32::MAX) };
+}
+
+/// Bound on the nesting of library loads (`u32::MAX` disables it).
+pub fn set_loader_depth_limit(max: u32) {
+    MAX_LOADER_DEPTH.with(|d| d.set(max));
+    LOADER_DEPTH.with(|d| d.set(0));
+}
+
+pub struct LoaderGuard(());
+
+impl Drop for LoaderGuard {
+    fn drop(&mut self) {
+        LOADER_DEPTH.with(|d| d.set(d.get().saturating_sub(1)));
+    }
+}
+
+pub fn enter_loader() -> Result<LoaderGuard, ()> {
+    let depth = LOADER_DEPTH.with(|d| d.get());
+    if depth >= MAX_LOADER_DEPTH.with(|d| d.get()) {
+        EXHAUSTED.with(|e| e.set(true));
+        return Err(());
+    }
+    LOADER_DEPTH.with(|d| d.set(depth + 1));
+    Ok(LoaderGuard(()))
+}
